@@ -99,6 +99,26 @@ pub fn run_case(ctx: &Ctx, case: &Case) -> Outcome {
                 break;
             }
         }
+        // what the primary shows for a pending operation (`debug pending-ops`): exactly the nodes it was sent to, each
+        // with whether it has acknowledged; a foreign acknowledgement adds nothing to it
+        for (op, t) in targets.iter() {
+            if let Some(m) = node.dbs.get_pending_opp_copy(OPS[*op]) {
+                let got: BTreeMap<String, bool> = m.replications.lock().unwrap().iter().map(|(k, v)| (k.clone(), *v)).collect();
+                let a = acked.get(op).cloned().unwrap_or_default();
+                let want: BTreeMap<String, bool> = t.iter().map(|n| (NODES[*n].to_string(), a.contains(n))).collect();
+                // (an operation that was complete is dropped and starts again with the next node it is sent to: nodes that
+                // acknowledged before that need not be listed any more)
+                let foreign = got.keys().any(|k| !want.contains_key(k));
+                let flags_ok = got.iter().all(|(k, v)| want.get(k) == Some(v)) && want.iter().filter(|(_, v)| !**v).all(|(k, _)| got.contains_key(k));
+                if foreign || !flags_ok {
+                    fail = Some((format!("C15|per-node-map|{}", if foreign { "a-node-never-targeted-is-listed" } else { "flags-differ" }), format!("step {}: {:?}: op {} lists {:?}, model {:?}", i, ev, OPS[*op], got, want)));
+                    break;
+                }
+            }
+        }
+        if fail.is_some() {
+            break;
+        }
         // counts never cross
         for (op, _) in targets.iter() {
             if let Some(m) = node.dbs.get_pending_opp_copy(OPS[*op]) {
